@@ -1930,6 +1930,9 @@ func (e *Engine) intrinsic(st *State, fv Func, args []Value, x *ssa.Call) bool {
 		g := st.gs[st.cur]
 		l := st.locks[mkey]
 		if g.condPhase == 0 {
+			// a preemption point although the call blocks: what another goroutine does between the caller's last check and
+			// its parking matters when that goroutine signals without the mutex (a lost wake-up)
+			e.schedPoint(st)
 			if !l.writer {
 				e.goPanic(st, "sync: unlock of unlocked mutex (Cond.Wait)")
 			}
